@@ -28,11 +28,11 @@ HB_UNWIND = ','.join(f'{f}.{k}:14' for f in ('vp_hb_init', 'vp_hb_fork', 'vp_hb_
 
 class Query:
     def __init__(s, name, cpp, q, defines=(), unwind=3, unwindset=None, timeout=600, solvers=('kissat', 'minisat'), checks=None,
-                 witness=True, expect_witness=True, note='', mem_gb=24, extra_flags=(), must_cover=0, tv=True, cflags=()):
+                 witness=True, expect_witness=True, note='', mem_gb=24, extra_flags=(), must_cover=0, tv=True, cflags=(), object_bits=10):
         s.name, s.cpp, s.q, s.defines = name, cpp, q, tuple(defines)
         s.unwind, s.unwindset, s.timeout, s.solvers = unwind, unwindset, timeout, tuple(solvers)
         s.checks, s.witness, s.note, s.mem_gb = checks, witness, note, mem_gb
-        s.extra_flags = tuple(extra_flags); s.must_cover = must_cover; s.tv = tv; s.cflags = tuple(cflags)
+        s.extra_flags = tuple(extra_flags); s.must_cover = must_cover; s.tv = tv; s.cflags = tuple(cflags); s.object_bits = object_bits
 
 
 def sh(cmd, **kw):
@@ -241,7 +241,7 @@ class Runner:
         flags = ['--unwind', str(Q.unwind)]
         uws = MEM_UNWIND + ((',' + Q.unwindset) if Q.unwindset else '') + ((',' + HB_UNWIND) if Q.q.get('opts', {}).get('hb') else '')
         flags += ['--unwindset', uws]
-        flags += ['--drop-unused-functions', '--object-bits', '10'] + solver_flags(solver) + list(Q.extra_flags)
+        flags += ['--drop-unused-functions', '--object-bits', str(Q.object_bits)] + solver_flags(solver) + list(Q.extra_flags)
         if kind != 'verify': flags += ['--slice-formula']     # verify runs keep every nondeterministic draw in the trace (needed for the native replay)
         if kind == 'verify':
             flags += ['--unwinding-assertions', '--trace', '--stop-on-fail']
